@@ -113,3 +113,38 @@ def kronecker_structure():
             from pyvc.frontend import OutOfSubset
             raise OutOfSubset('%s left the modelled vocabulary: %r' % (fname, e))
     return obs, None
+
+
+def fast_wrapper_obligations():
+    """fast_assemble_{2,3}d_wrapper hand axis k's size and bandwidth to the C++ routine as (kvs[k].numdofs, kvs[k].p), k = 0..d-1, in order
+    (precondition of the external fast_assemble_{d}d: (n_k, bw_k) describe axis k; the C++ code itself is outside the front end)."""
+    import ast
+    from pyvc import frontend
+    from pyvc.symexec import Obligation
+    FF = 'pyiga/fast_assemble_cy.pyx'
+    src = frontend.load(FF)
+    obs = []
+    for d in (2, 3):
+        fn = src.find('fast_assemble_%dd_wrapper' % d)
+        calls = [n for n in ast.walk(fn) if isinstance(n, ast.Call) and isinstance(n.func, ast.Name) and n.func.id == 'fast_assemble_%dd_cimpl' % d]
+        ok, detail = False, 'call of fast_assemble_%dd_cimpl not found' % d
+        if len(calls) == 1:
+            args = [ast.unparse(a) for a in calls[0].args]
+            want = []
+            for k in range(d):
+                want += ['kvs[%d].numdofs' % k, 'kvs[%d].p' % k]
+            got = args[2:2 + 2 * d]
+            ok = got == want and args[0] == 'entry_func'
+            detail = 'axis arguments are %r, expected %r' % (got, want)
+        # the size of the result matrix is the product of all axis sizes
+        prods = [ast.unparse(n.value) for n in ast.walk(fn) if isinstance(n, (ast.Assign, ast.AnnAssign)) and getattr(n, 'value', None) is not None
+                 and 'numdofs' in ast.unparse(n.value) and '*' in ast.unparse(n.value)]
+        wantN = ' * '.join('kvs[%d].numdofs' % k for k in range(d))
+        okN = wantN in prods
+        o = Obligation('fast_assemble_cy:fast_assemble_%dd_wrapper:axis-arguments' % d, 'rule', fn.lineno, [], None,
+                       'axis k is passed as (kvs[k].numdofs, kvs[k].p) for k = 0..%d and the matrix size is the product of the axis sizes' % (d - 1), src=FF)
+        o.status, o.backend, o.time = ('proved' if ok and okN else 'refuted'), 'ast-dataflow (call arguments)', 0.0
+        if not (ok and okN):
+            o.goal = detail + ('' if okN else '; matrix size expressions: %r' % prods)
+        obs.append(o)
+    return obs, None
